@@ -236,7 +236,7 @@ func genUpdate(w *World, info FnInfo, cur absList, wc func() *bool) *genUpd {
 //go:norace
 func (u *genUpd) cmdFor(info FnInfo) model.CmdType {
 	cmd := model.CmdType{}
-	cmd.SetDataForFunction(info.Fn, u.data)
+	SetCmdData(&cmd, info.Fn, u.data)
 	if u.fp != nil || u.fd != nil {
 		cmd.Function = util.Ptr(info.Fn)
 		if u.fd != nil {
